@@ -16,7 +16,7 @@ const (
 
 func init() {
 	register("C22", "other", "T1 LockSet, T16c tombstone agreement, T2 Dominates (flush phases), T7 Pairing, alias/provenance (snapshot copy)",
-		"Decides the structure the overlay semantics depend on: the overlay tree, size estimate and underlying handle are only touched under the store lock (also by the iterator and the batch); every function that reads an overlay value treats nil as 'deleted' (Has/Get/flush/iterator/batch write and replay) while Put rejects nil and stores a private copy and Delete stores the nil tombstone; reads fall through to the underlying store only on the not-in-overlay edge; flush puts or deletes every overlay entry into a batch, writes full batches on the size threshold, clears the overlay and the size only after the complete loop and ends with the final batch write; dropping clears tree and size; the snapshot's tree is a fresh tree filled under the read lock with its own lock, and the underlying store's snapshot and the copy of the overlay are taken in one critical section of the store lock (in GetSnapshot or in the helper that builds the snapshot); statements of flush may live in helpers called on the same store (effect sites); the unflushed-key count is the tree size and both write paths key the tree by the same string conversion; the lazy variant installs the real store before flushing. The merged-iterator semantics (value-level) and history equivalence are not decided.",
+		"Decides the structure the overlay semantics depend on: the overlay tree, size estimate and underlying handle are only touched under the store lock (also by the iterator and the batch); every function that reads an overlay value treats nil as 'deleted' (Has/Get/flush/iterator/batch write and replay) while Put rejects nil and stores a private copy and Delete stores the nil tombstone; reads fall through to the underlying store only on the not-in-overlay edge; flush puts or deletes every overlay entry into a batch, writes full batches on the size threshold, clears the overlay and the size only after the complete loop and ends with the final batch write; dropping clears tree and size; the snapshot's tree is a fresh tree filled under the read lock with its own lock, and the underlying store's snapshot and the copy of the overlay are taken in one critical section of the store lock (in GetSnapshot or in the helper that builds the snapshot; when the reader is assembled in a constructor helper, the tree and the parent snapshot are judged at the arguments of its call, and a tree returned by a copying helper at that helper's returns); statements of flush may live in helpers called on the same store (effect sites); the unflushed-key count is the tree size and both write paths key the tree by the same string conversion; the lazy variant installs the real store before flushing. The merged-iterator semantics (value-level) and history equivalence are not decided.",
 		[]string{"gods red-black tree contract (ordered by string comparator, Put replaces)", "underlying store is a correct ordered map (C23)"},
 		runC22)
 }
@@ -29,17 +29,32 @@ func runC22(c *core.Ctx) {
 		res := core.RunLockset(p, flushableLockSpec())
 		// the pool is C25/C28's subject: its methods, and the plain helper functions that only the pool calls
 		pool := c22PoolFuncs(res)
-		n := reportLockset(c, res, c28Exceptions, func(f *core.FuncInfo) bool { return !pool[f] })
-		c.ExpectAtLeast("flushable (function,field) access groups", n, 28)
+		reportLockset(c, res, c28Exceptions, func(f *core.FuncInfo) bool { return !pool[f] })
+		// vacuity guard only: accesses of each role of the guarded state (overlay tree, the two underlying
+		// handles, size estimate) were found and analysed; every (function, field) group is an obligation
+		// of its own, so the number of groups carries no weight
+		seen := map[string]int{}
+		for _, a := range res.Accesses {
+			if !pool[a.F] {
+				seen[a.Field]++
+			}
+		}
+		for _, fld := range []string{modF, flRead + ".underlying", flT + ".underlying", flT + ".sizeEstimation"} {
+			c.ExpectAtLeast("analysed accesses of "+short(fld), seen[fld], 1)
+		}
 	})
 
 	c.Clause("C22.tombstone", func() {
 		// every function reading an overlay value compares it with nil (exception: a function that only
 		// copies the values verbatim into another tree, as the snapshot does: tombstones stay tombstones)
-		n := 0
+		nLookup, nWalk := 0, 0
 		for _, f := range p.FuncsInPkg("kvdb/flushable") {
 			var reads []ast.Expr
-			for _, cs := range f.CallsTo(rbtP+"Tree.Get", rbtP+"Iterator.Value") {
+			for _, cs := range f.CallsTo(rbtP + "Tree.Get") {
+				reads = append(reads, cs.Call)
+			}
+			lookups := len(reads)
+			for _, cs := range f.CallsTo(rbtP + "Iterator.Value") {
 				reads = append(reads, cs.Call)
 			}
 			f.InspectOwn(func(nd ast.Node) bool {
@@ -51,7 +66,12 @@ func runC22(c *core.Ctx) {
 			if len(reads) == 0 {
 				continue
 			}
-			n++
+			if lookups > 0 {
+				nLookup++
+			}
+			if len(reads) > lookups {
+				nWalk++
+			}
 			// variables holding read values
 			vals := map[*types.Var]bool{}
 			for _, a := range assignments(f) {
@@ -87,7 +107,10 @@ func runC22(c *core.Ctx) {
 			found := c22NilTested(f, isVal, 2)
 			c.Check(found, short(f.Name), "T16c tombstone agreement", f.Pos(), "the overlay value read here is compared with nil (nil = deleted)", "an overlay value is read without a nil (tombstone) test: a deleted key would be treated as present")
 		}
-		c.ExpectAtLeast("functions reading overlay values", n, 5)
+		// vacuity guard: the two ways of reading an overlay value (point lookup, walk over entries) were
+		// each seen; every reading function is an obligation of its own
+		c.ExpectAtLeast("functions looking an overlay value up (Tree.Get)", nLookup, 1)
+		c.ExpectAtLeast("functions walking overlay entries (Iterator.Value / Node.Value)", nWalk, 1)
 		// batch entries: kv.v == nil means delete in Write and Replay
 		for _, name := range []string{"kvdb/flushable.cacheBatch.Write", "kvdb/flushable.cacheBatch.Replay"} {
 			f := c.Fn(name)
@@ -332,16 +355,19 @@ func runC22(c *core.Ctx) {
 
 	c.Clause("C22.drop", func() {
 		f := c.Fn(flT + ".dropNotFlushed")
-		clr := f.CallsTo(rbtP + "Tree.Clear")
-		ok := len(clr) == 1 && fieldNameOf(f, clr[0].Recv()) == modF
-		var zero []core.Point
-		for _, as := range assignments(f) {
-			if st, k := ast.Unparen(as.LHS).(*ast.StarExpr); k && fieldNameOf(f, st.X) == flT+".sizeEstimation" && core.IsConstInt(f.Info(), as.RHS, 0) {
-				zero = append(zero, as.Pt)
-			}
-		}
+		// every path through dropNotFlushed clears the overlay tree, and every point that clears it is
+		// paired with a point that zeroes the size estimate (either may live in a helper of the same store)
+		clr := c22Sites(f, c22ClearIn, 2, true)
+		zero := c22Sites(f, c22ZeroIn, 2, true)
+		ok := len(clr) >= 1
 		if ok {
-			ok, _ = pairedWith(f, clr[0].Pt, zero)
+			_, skip := core.PathQuery{F: f, From: f.Entry(), Avoid: core.PointSet(clr...), TargetExit: true}.Find()
+			ok = !skip
+		}
+		for _, pt := range c22Sites(f, c22ClearIn, 2, false) {
+			if o, _ := pairedWith(f, pt, zero); !o {
+				ok = false
+			}
 		}
 		c.Check(ok, "drop clears tree and size", "T7 Pairing", f.Pos(), "modified.Clear() and *sizeEstimation = 0", "dropNotFlushed does not clear both the overlay and the size estimate")
 		d := c.Fn(flT + ".DropNotFlushed")
@@ -353,7 +379,8 @@ func runC22(c *core.Ctx) {
 		// the function that builds the snapshot's reader: GetSnapshot itself, or a helper it calls
 		var f *core.FuncInfo
 		var cl *ast.CompositeLit
-		for _, g := range c22Hosts(entry, 2) {
+		hosts := c22Hosts(entry, 2)
+		for _, g := range hosts {
 			g := g
 			g.InspectOwn(func(n ast.Node) bool {
 				if x, ok := n.(*ast.CompositeLit); ok && cl == nil {
@@ -376,31 +403,39 @@ func runC22(c *core.Ctx) {
 				}
 			}
 		}
-		mv := varOf(f, modV)
-		okFresh := false
-		if mv != nil {
-			as := assignsToVar(f, mv)
-			okFresh = len(as) == 1 && isCallTo(f, as[0].RHS, rbtP+"NewWithStringComparator") != nil
+		// the tree and the store are judged where their values are made: when the reader is assembled in a
+		// constructor helper they are parameters, and the arguments at the helper's call are examined
+		var modFrames, underFrames []c22Frame
+		if modV != nil {
+			modFrames = c22ArgFrames(hosts, f, modV, 2)
 		}
+		if underV != nil {
+			underFrames = c22ArgFrames(hosts, f, underV, 2)
+		}
+		okFresh := c22AllFrames(modFrames, func(fr c22Frame) bool {
+			as := assignsToVar(fr.G, fr.V)
+			return len(as) == 1 && isCallTo(fr.G, as[0].RHS, rbtP+"NewWithStringComparator") != nil
+		})
 		c.Check(okFresh, "snapshot overlay is a fresh tree", "alias", cl.Pos(), "the snapshot's tree is newly created (later writes to the store cannot reach it)", "the snapshot shares the live overlay tree")
 		// filled from the live overlay inside GetSnapshot (which holds the read lock: C22.lock)
-		okFill := false
-		for _, cs := range f.CallsTo(rbtP + "Tree.Put") {
-			if varOf(f, cs.Recv()) == mv && mv != nil && enclosingLoop(f, cs.Pos()) != nil {
-				okFill = true
-			}
-		}
-		c.Check(okFill, "snapshot overlay is filled from the live overlay", "provenance", f.Pos(), "every live overlay entry is copied into the fresh tree", "the snapshot's tree is not filled from the live overlay")
-		// underlying is a snapshot of the parent, not the parent
-		uv := varOf(f, underV)
-		okU := false
-		if uv != nil {
-			for _, a := range assignsToVar(f, uv) {
-				if a.RHS != nil && isCallTo(f, a.RHS, "kvdb.Snapshoter.GetSnapshot") != nil {
-					okU = true
+		okFill := c22AllFrames(modFrames, func(fr c22Frame) bool {
+			for _, cs := range fr.G.CallsTo(rbtP + "Tree.Put") {
+				if canonVar(fr.G, varOf(fr.G, cs.Recv())) == fr.V && enclosingLoop(fr.G, cs.Pos()) != nil {
+					return true
 				}
 			}
-		}
+			return false
+		})
+		c.Check(okFill, "snapshot overlay is filled from the live overlay", "provenance", f.Pos(), "every live overlay entry is copied into the fresh tree", "the snapshot's tree is not filled from the live overlay")
+		// underlying is a snapshot of the parent, not the parent
+		okU := c22AllFrames(underFrames, func(fr c22Frame) bool {
+			for _, a := range assignsToVar(fr.G, fr.V) {
+				if a.RHS != nil && isCallTo(fr.G, a.RHS, "kvdb.Snapshoter.GetSnapshot") != nil {
+					return true
+				}
+			}
+			return false
+		})
 		c.Check(okU, "snapshot reads a snapshot of the underlying store", "provenance", f.Pos(), "underlying: parent.GetSnapshot()", "the snapshot reads the live underlying store")
 		// the parent snapshot and the copy of the overlay are taken in one critical section of the store
 		// lock: a flush (or drop, or write) between the two would pair the old underlying state with the
@@ -415,7 +450,15 @@ func runC22(c *core.Ctx) {
 		f := c.Fn("kvdb/flushable.LazyFlushable.Flush")
 		ini := f.CallsTo("kvdb/flushable.LazyFlushable.initUnderlyingDb")
 		fl := f.CallsTo(flT + ".flush")
-		ok := len(ini) == 1 && len(fl) == 1 && afterSuccess(f, ini[0], fl[0].Pt)
+		// every flush() call is reached only after some initUnderlyingDb() call returned a nil error
+		ok := len(ini) >= 1 && len(fl) >= 1
+		for _, fc := range fl {
+			after := false
+			for _, ic := range ini {
+				after = after || afterSuccess(f, ic, fc.Pt)
+			}
+			ok = ok && after
+		}
 		c.Check(ok, "lazy flush installs the real store first", "T2+T4", f.Pos(), "flush() runs only after initUnderlyingDb() succeeded", "the lazy store can flush into the placeholder database")
 		// both handles are updated together
 		ii := c.Fn("kvdb/flushable.LazyFlushable.initUnderlyingDb")
